@@ -141,6 +141,161 @@ def _replay_long(beh):
     return replay(beh, 3, False)
 
 
+
+class OpRecorder:
+    """Wraps the mutators of the real graph classes and logs every call made on one object."""
+
+    def __init__(self):
+        from cnfgen.graphs import Graph, BipartiteGraph, DirectedGraph
+        self.target = None
+        self.events = []
+        self.saved = []
+        rec = self
+
+        def wrap(cls, name, op):
+            orig = getattr(cls, name)
+            self.saved.append((cls, name, orig))
+
+            def f(selfg, *a):
+                if selfg is not rec.target:
+                    return orig(selfg, *a)
+                try:
+                    out = orig(selfg, *a)
+                    res = "ok"
+                except ValueError:
+                    res = "ValueError"
+                    out = None
+                    rec.log(selfg, op, a, res)
+                    raise
+                rec.log(selfg, op, a, res)
+                return out
+            setattr(cls, name, f)
+        wrap(Graph, "add_edge", "add_edge")
+        wrap(Graph, "remove_edge", "remove_edge")
+        wrap(Graph, "update_vertex_number", "update_vertex_number")
+        wrap(BipartiteGraph, "add_edge", "add_edge")
+        wrap(DirectedGraph, "add_edge", "add_edge")
+
+    def log(self, G, op, a, res):
+        from cnfgen.graphs import BaseBipartiteGraph
+        n = G.left_order() if isinstance(G, BaseBipartiteGraph) else G.number_of_vertices()
+        self.events.append({"op": op, "u": int(a[0]), "v": int(a[1]) if len(a) > 1 else 0, "res": res,
+                            "n": int(n), "m": int(G.number_of_edges())})
+
+    def restore(self):
+        for cls, name, orig in self.saved:
+            setattr(cls, name, orig)
+
+
+def random_helper_traces(ck, maxn):
+    """Traces of what the real random helpers do to a real graph object."""
+    import random as _random
+    from cnfgen.graphs import Graph, BipartiteGraph, split_random_edges, add_random_missing_edges
+    from cnfgen.clitools.graph_build import (modify_simple_graph_plantclique, modify_graph_addedges,
+                                             modify_graph_splitedges, modify_bipartite_graph_plantbiclique)
+    rng = ck.rng
+    rec = OpRecorder()
+    traces = {"simple": [], "bipartite": []}
+    try:
+        for t in range(24 if ck.quick else 200):
+            kind = "simple" if t % 3 else "bipartite"
+            _random.seed(ck.seed * 7919 + t)
+            if kind == "simple":
+                n0 = rng.randint(3, maxn - 4)
+                G = Graph(n0)
+                base = [(u, v) for u in range(1, n0 + 1) for v in range(u + 1, n0 + 1) if rng.random() < .45]
+                r0 = 0
+            else:
+                n0, r0 = rng.randint(2, 5), rng.randint(2, 5)
+                G = BipartiteGraph(n0, r0)
+                base = [(u, v) for u in range(1, n0 + 1) for v in range(1, r0 + 1) if rng.random() < .4]
+            rec.target, rec.events = G, []
+            rng.shuffle(base)
+            for u, v in base:
+                G.add_edge(u, v)
+            steps = rng.randint(1, 3)
+            for _ in range(steps):
+                try:
+                    if kind == "simple":
+                        c = rng.choice(("split", "add", "plant", "split_direct", "add_direct"))
+                        missing = n0 * (n0 - 1) // 2 - G.number_of_edges()
+                        if c == "split":
+                            modify_graph_splitedges({"splitedges": [str(min(rng.randint(0, 3), G.number_of_edges(), maxn - G.number_of_vertices()))]}, G)
+                        elif c == "split_direct":
+                            split_random_edges(G, min(rng.randint(0, 2), G.number_of_edges(), maxn - G.number_of_vertices()))
+                        elif c == "add":
+                            if G.number_of_vertices() == n0:
+                                modify_graph_addedges({"addedges": [str(rng.randint(0, max(0, missing)))]}, G)
+                        elif c == "add_direct":
+                            if G.number_of_vertices() == n0:
+                                add_random_missing_edges(G, rng.randint(0, max(0, missing)))
+                        else:
+                            modify_simple_graph_plantclique({"plantclique": [str(rng.randint(0, G.number_of_vertices()))]}, G)
+                    else:
+                        c = rng.choice(("add", "plant"))
+                        if c == "add":
+                            modify_graph_addedges({"addedges": [str(rng.randint(0, n0 * r0 - G.number_of_edges()))]}, G)
+                        else:
+                            modify_bipartite_graph_plantbiclique({"plantbiclique": [str(rng.randint(0, n0)), str(rng.randint(0, r0))]}, G)
+                except ValueError:
+                    pass
+            ev = list(rec.events)
+            ev.append({"op": "final", "u": 0, "v": 0, "res": "ok", "n": 0, "m": 0,
+                       "edges": sorted([int(u), int(v)] for u, v in G.edges())})
+            for e in ev[:-1]:
+                e["edges"] = []
+            traces[kind].append({"id": "%s-%03d" % (kind, t), "n0": n0, "r0": r0, "events": ev})
+    finally:
+        rec.restore()
+    return traces
+
+
+def validate_traces(ck, wd, traces, maxn):
+    """TLC validates the recorded traces against GraphsTrace.tla (TraceSpec, ViewsAgree at every step)."""
+    import json as _json
+    import re as _re
+    for kind, trs in traces.items():
+        if not trs:
+            continue
+        # binding demonstration: a copy of the first trace with one logged counter corrupted and one
+        # with an event removed must NOT be accepted
+        import copy as _copy
+        demos = []
+        base = next((t for t in trs if len(t["events"]) >= 4), None)
+        if base is not None:
+            a = _copy.deepcopy(base)
+            a["id"] = "demo-corrupt-counter"
+            a["events"][1]["m"] += 1
+            b = _copy.deepcopy(base)
+            b["id"] = "demo-dropped-event"
+            del b["events"][0]
+            demos = [a, b]
+        path = os.path.join(wd, "traces_%s.json" % kind)
+        with open(path, "w") as f:
+            _json.dump(trs + demos, f)
+        cfg = os.path.join(wd, "trace_%s.cfg" % kind)
+        with open(cfg, "w") as f:
+            f.write("SPECIFICATION TraceSpec\nCONSTANTS\n  Kind = \"%s\"\n  MaxN = %d\n  Depth = 0\n  Batches <- SomeBatches\n"
+                    "INVARIANT ViewsAgree\nCHECK_DEADLOCK FALSE\n" % (kind, maxn))
+        r = tlc.run_tlc("GraphsTrace", cfg, env={"TRACE_FILE": path}, workers=4, heap="3g", timeout=1800)
+        ck.states += r["distinct"]
+        ck.transitions += r["generated"]
+        accepted = set(_re.findall(r'<<"ACCEPTED", "([^"]+)">>', r["out"]))
+        inv = "Invariant ViewsAgree is violated" in r["out"]
+        if r["rc"] != 0 and not inv:
+            raise tlc.MachineryError("trace validation run failed:\n" + r["out"][-2000:])
+        for dm in demos:
+            if dm["id"] in accepted:
+                raise tlc.MachineryError("binding demonstration: corrupted trace %s was accepted" % dm["id"])
+        ck.count("corrupted_traces_rejected", len(demos))
+        for tr in trs:
+            ok = tr["id"] in accepted and not inv
+            ck.replayed({"id": "trace-" + tr["id"], "trace": tr}, ok,
+                        "ok" if ok else ("views_disagree_during_trace" if inv else "trace_is_not_a_behaviour_of_the_specification"))
+        ck.count("helper_traces_validated_%s" % kind, len(trs))
+        ck.count("helper_trace_events_%s" % kind, sum(len(t["events"]) for t in trs))
+
+
 def write_cfg(path, kind, maxn, depth, batches="SomeBatches", emit=True, mc=False):
     lines = ["SPECIFICATION Spec", "CONSTANTS", '  Kind = "%s"' % kind, "  MaxN = %d" % maxn,
              "  Depth = %d" % depth, "  Batches <- %s" % batches, "CHECK_DEADLOCK FALSE"]
@@ -195,6 +350,8 @@ def main(argv=None):
             if j in (0, len(behs)) and kind == "simple":
                 ck.sample({"kind": kind, "calls": [[s["act"], s["args"], s["res"]] for s in beh["hist"]]})
             ck.replayed({"id": "%s-%d" % (kind, j), "behaviour": beh}, ok, why)
+    # trace validation (code -> spec): what the real random helpers do to a real graph object
+    validate_traces(ck, wd, random_helper_traces(ck, 12), 12)
     ck.assumptions += ["vertex counts 0..3 (4 for the model check of simple graphs in the thorough tier), "
                        "arguments 0..MaxN+1; behaviours of bounded depth"]
     return ck.finish(rule="one case = one TLC behaviour (constructor + sequence of calls with arguments) replayed into the "
